@@ -10,6 +10,7 @@ Judge(s, e) == CASE e.ev = "Encode" -> EncodeJudge(e.space, e.name, e.accepted, 
                  [] e.ev = "Cross" -> CrossJudge(e.space, e.name, e.accepted)
                  [] e.ev = "Placed" -> (IF ~e.accepted \/ ~e.present THEN "KnownNameAcceptedWhereverItStands" ELSE "ok")
                  [] e.ev = "Tag" -> TagJudge(e.what, e.tag)
+                 [] e.ev = "ParseTag" -> ParseTagJudge(e.what, e.tag, e.accepted)
                  [] OTHER -> "UnknownEvent"
 Effect(s, e) == s
 Start(e) == [x |-> 0]
